@@ -18,7 +18,33 @@ func (i *interpreter) readerContent(r iface, consume bool) (value, bool) {
 	if r.t == nil {
 		return nil, false
 	}
+	// harness readers may offer their whole remaining content (io.Copy and
+	// io.ReadAll do not depend on how a reader chunks its data)
+	if consume && hasMethod(i.prog, r.t, "verifDrain") {
+		return i.callMethod(nil, r, "verifDrain"), true
+	}
 	switch r.t.String() {
+	case "*io.multiReader":
+		if !consume {
+			return nil, false
+		}
+		pv := r.v.(*value)
+		s := (*pv).(structure)
+		rs, _ := s[0].([]value)
+		var all value = ""
+		for _, sub := range rs {
+			si, ok := sub.(iface)
+			if !ok {
+				return nil, false
+			}
+			c, ok := i.readerContent(si, true)
+			if !ok {
+				return nil, false // (earlier sub-readers are already drained: only used by io.Copy / ReadAll)
+			}
+			all = mkConcat(all, c)
+		}
+		s[0] = []value(nil)
+		return i.compact(all), true
 	case "*os.File":
 		h := handleOf(r.v)
 		if h.closed || !h.rd {
